@@ -153,11 +153,15 @@ func (d *DHCPv6) SerializeTo(b gopacket.SerializeBuffer, opts gopacket.Serialize
 	offset := 0
 	data[0] = byte(d.MsgType)
 	if d.MsgType == DHCPv6MsgTypeRelayForward || d.MsgType == DHCPv6MsgTypeRelayReply {
+		// Unset addresses are written as zeros.
+		clear(data[1:34])
 		data[1] = byte(d.HopCount)
 		copy(data[2:18], d.LinkAddr.To16())
 		copy(data[18:34], d.PeerAddr.To16())
 		offset = 34
 	} else {
+		// A transaction ID shorter than 3 bytes is padded with zeros.
+		clear(data[1:4])
 		copy(data[1:4], d.TransactionID)
 		offset = 4
 	}
